@@ -20,7 +20,8 @@ RULE = ("case = one generated declaration x K = 4-6 legal configurations in one 
         "cases. non-trivial = the K configurations cover >= 2 distinct predicted resolutions of at least one feature; "
         "distinct by (declaration, configuration set)")
 
-PROFILE = S.profile(renames=0.4, dups=0.05, attrs=0.1, sizes=[("small", 82), ("medium", 10), ("large", 6), ("full8", 2)])
+PROFILE = S.profile(renames=0.4, dups=0.05, attrs=0.1, sizes=[("small", 78), ("medium", 12), ("large", 6), ("full8", 4)],
+                    orders=["identity", "reverse", "perm", "by_name", "by_name"])
 TOGGLE = ["names", "range", "Debug", "Display", "IntoStr", "from_str", "FromStr", "as_str", "iter", "next", "next_back",
           "MIN", "MAX", "try_from", "TryFrom", "into", "Into"]
 
@@ -29,7 +30,7 @@ TOGGLE = ["names", "range", "Debug", "Display", "IntoStr", "from_str", "FromStr"
 def cases(draw, tier="quick"):
     spec = draw(S.enum_specs(PROFILE))
     m = M.RefEnum(spec)
-    base = draw(S.configs(spec, p_on=0.65, split=False, params=False, p_sorted=0.25))
+    base = draw(S.configs(spec, p_on=0.65, split=False, params=False, p_sorted=0.5))
     k = draw(st.integers(3, 5))
     variants = []
     for _ in range(k):
